@@ -45,6 +45,7 @@ func TestVerif_C31_Startup(t *testing.T) {
 	rec := vstat.New(t, "C31", "startup",
 		"store filled with {5,500,4000} rows, closed with a snapshot, reopened through the fast restart path with the clean-snapshot fingerprint as written (with CRC32) or rewritten without the crc32 field (older release); Close(wait) at offset 0..40 ms after Open or after leadership, snapshot-on-close on/off; non-trivial = the fast path was taken (start-up check launched); distinct by all parameters")
 	rapid.Check(t, func(rt *rapid.T) {
+		defer g8bRecoverInfra(rec, t)
 		c := c31sCase{
 			Rows:        rapid.SampledFrom([]int{5, 500, 4000}).Draw(rt, "rows"),
 			OldMarker:   rapid.Bool().Draw(rt, "oldMarker"),
@@ -55,13 +56,13 @@ func TestVerif_C31_Startup(t *testing.T) {
 		}
 		dir, err := os.MkdirTemp("", "c31s-")
 		if err != nil {
-			rt.Skip("tempdir")
+			g8bInfra("tempdir")
 		}
 		defer os.RemoveAll(dir)
 		n, err := g8bOpenSingle("n1", dir, nil)
 		if err != nil {
 			t.Logf("infrastructure: %v", err)
-			rt.Skip("store did not come up")
+			g8bInfra("store did not come up")
 		}
 		stmts := []string{"CREATE TABLE t(id INTEGER PRIMARY KEY, v TEXT)"}
 		for i := 0; i < c.Rows; i += 200 {
@@ -76,16 +77,16 @@ func TestVerif_C31_Startup(t *testing.T) {
 		}
 		if _, _, err := g8bExec(n.S, true, stmts...); err != nil {
 			n.Close()
-			rt.Skip("setup write failed")
+			g8bInfra("setup write failed")
 		}
 		cleanPath := n.S.cleanSnapshotPath
 		if err := n.Close(); err != nil { // snapshot-on-close writes the fingerprint
-			rt.Skip("first close failed")
+			g8bInfra("first close failed")
 		}
 		b, err := os.ReadFile(cleanPath)
 		if err != nil {
 			rec.Label("no-clean-snapshot-marker")
-			rt.Skip("no clean snapshot marker")
+			g8bInfra("no clean snapshot marker")
 		}
 		if c.OldMarker {
 			m := map[string]any{}
@@ -101,7 +102,7 @@ func TestVerif_C31_Startup(t *testing.T) {
 
 		n2, err := g8bNewStore("n1", dir)
 		if err != nil {
-			rt.Skip("listener")
+			g8bInfra("listener")
 		}
 		defer n2.Ln.Close()
 		s := n2.S
@@ -109,7 +110,7 @@ func TestVerif_C31_Startup(t *testing.T) {
 		s.NoSnapshotOnClose = !c.SnapOnClose
 		if err := s.Open(); err != nil {
 			t.Logf("infrastructure: reopen: %v", err)
-			rt.Skip("reopen failed")
+			g8bInfra("reopen failed")
 		}
 		openRet := time.Now()
 		fast := s.numSnapshotsSkipped.Load() > 0
@@ -136,7 +137,7 @@ func TestVerif_C31_Startup(t *testing.T) {
 				close(stopWatch)
 				<-watchDone
 				s.Close(true)
-				rt.Skip("no leader after reopen")
+				g8bInfra("no leader after reopen")
 			}
 		}
 		time.Sleep(time.Duration(c.OffsetMs) * time.Millisecond)
